@@ -1019,7 +1019,7 @@ pub fn all() -> Vec<Box<dyn Check>> {
         level: "fault_enumeration",
         rule: "generated prior histories (rejected / garbled / EOF / silent / cancelled handshakes, transport failures, broker DISCONNECT, handle dropped / forgotten / into_inner, malformed broker data, arenas from 48 bytes up with up to 8 retained packets) are re-executed with a transport fault at every I/O call index and with a cancellation at every await index of every operation; each ends with connect() over a healthy whole-buffer transport to the conformant reference broker, which must succeed, start with one complete CONNECT, carry nothing over, and then complete a subscribe + QoS 1 publish + inbound QoS 1 publish round trip. Non-trivial iff the prior history ended in a failure/cancellation or left in-flight state; configurations whose empty arena cannot hold a CONNECT are excluded.",
         assumptions: COMMON_ASSUME.to_vec(),
-        workloads: vec![("session-mix", 150, 15_000, session_mix as ProfileFn), ("tiny-arena", 150, 15_000, tiny_arena), ("general", 100, 10_000, general), ("inbound-qos2-full", 60, 6_000, inbound_qos2_full)],
+        workloads: vec![("session-mix", 150, 15_000, session_mix as ProfileFn), ("tiny-arena", 150, 15_000, tiny_arena), ("general", 100, 10_000, general), ("inbound-qos2-full", 60, 6_000, inbound_qos2_full), ("keepalive-mix", 100, 10_000, keepalive_mix)],
         monitor: m::c12::check,
         max_steps: 30,
         epilogue_polls: 60,
